@@ -310,6 +310,9 @@ func main() {
 			if gc.IgnoreKeys != nil && gc.IgnoreKeys[k[:1]] && k != "prep" {
 				continue
 			}
+			if implOnlyKey(k) {
+				continue
+			}
 			if stop >= 0 && len(k) > 1 && k[1] >= '0' && k[1] <= '9' {
 				var n int
 				fmt.Sscanf(k[1:], "%d", &n)
@@ -402,4 +405,18 @@ func objKey(c *Case) string {
 		sb.WriteString(v.Name + "=" + v.V.Sexp())
 	}
 	return sb.String()
+}
+
+// keys produced only by the IMPL side (direct oracles): used-vs-fresh (f,h,j,q), Run (b), stack residue (k), Dump
+func implOnlyKey(k string) bool {
+	if k == "dump" {
+		return true
+	}
+	if len(k) >= 2 && k[1] >= '0' && k[1] <= '9' {
+		switch k[0] {
+		case 'f', 'h', 'j', 'q', 'b', 'k':
+			return true
+		}
+	}
+	return false
 }
